@@ -7,7 +7,8 @@ Open Scope Z_scope.
 
 (* an op of the harness: a model label, or the macro "the server side of the current session goes
    away and the manager rebuilds" = SessLoss; SessCleanup cur; BgPop * pooled; Rebuild *)
-Inductive hop := HL (l : label) | HSessLoss.
+Inductive hop := HL (l : label) | HSessLoss | HEndWin.
+(* HEndWin = the part after the shutdown flag: SessCleanup cur; BgPop * pooled; Rebuild *)
 
 Record snap := {
   sn_active : Z; sn_head : Z; sn_tail : Z; sn_ring : list Z;
@@ -53,14 +54,16 @@ Definition res_code (r : result) : Z * Z :=
   | RNone => (-1, -1) | RIgnored => (-2, -1)
   end.
 
+Definition end_window (s1 : st) : st :=
+  let s2 := fst (step s1 (SessCleanup (cur s1))) in
+  let s3 := run s2 (repeat BgPop (Z.to_nat (tail s2 - head s2))) in
+  fst (step s3 Rebuild).
+
 Definition run_hop (s : st) (o : hop) : st * result :=
   match o with
   | HL l => step s l
-  | HSessLoss =>
-    let s1 := fst (step s SessLoss) in
-    let s2 := fst (step s1 (SessCleanup (cur s1))) in
-    let s3 := run s2 (repeat BgPop (Z.to_nat (tail s2 - head s2))) in
-    (fst (step s3 Rebuild), RNone)
+  | HSessLoss => (end_window (fst (step s SessLoss)), RNone)
+  | HEndWin => (end_window s, RNone)
   end.
 
 (* first step at which model and implementation differ: (step index, field code);
@@ -74,7 +77,7 @@ Fixpoint first_diff (s : st) (l : list pstep) (n : nat) : option (nat * Z) :=
     let res_ok := match p_op p with
                   | HL (Get _) => (rc =? p_res p) && (got =? p_got p)
                   | HL _ => negb (rc =? -2)         (* the harness never issues an op the model ignores *)
-                  | HSessLoss => true
+                  | HSessLoss | HEndWin => true
                   end in
     if negb res_ok then Some (n, 7)
     else let d := snap_diff (model_snap s') (p_snap p) in
